@@ -58,6 +58,12 @@ pub fn link_with(field: &str, s: &str) -> MetadataWrapper {
         "product-path" => {
             prods.insert(world::vpath(&format!("p{s}")), world::desc(4));
         }
+        "material-path-whole" => {
+            mats.insert(world::vpath(s), world::desc(3));
+        }
+        "product-path-whole" => {
+            prods.insert(world::vpath(s), world::desc(4));
+        }
         _ => {}
     }
     MetadataWrapper::Link(
@@ -100,6 +106,11 @@ pub fn layout_with(field: &str, s: &str) -> MetadataWrapper {
     l.readme = readme;
     MetadataWrapper::Layout(l)
 }
+
+/// Paths as somebody may have written them into a link or a rule.
+pub const PATH_SPELLINGS: [&str; 20] = [
+    "./x", "a/./b", "a//b", "a/../b", "dir/", "/abs//x", "..", ".", "a/b/..", "./", "../x", "a/../../x", "//", "a\\b", "C:\\dir\\x", ".\\x", " x", "x ", "X", "a/b/",
+];
 
 pub fn classify(s: &str) -> String {
     let mut classes = vec![];
@@ -489,6 +500,26 @@ pub fn run(tier: Tier) -> i32 {
         acc.merge(Acc::merge_all(accs.into_iter().map(|(a, _)| a).collect()));
         acc.note_n("long_strings", long.len() as u64);
     }
+    // (B4) paths as a signer may have recorded them: not normalised (dot segments, doubled and
+    // trailing separators, back-slashes, drive letters). The bytes that are verified are those of
+    // the path as written.
+    {
+        let rng = ring::rand::SystemRandom::new();
+        let rs = RefSigners {
+            ed: Ed25519KeyPair::from_pkcs8(keys::ED_PK8[0]).unwrap(),
+            ec: EcdsaKeyPair::from_pkcs8(&ECDSA_P256_SHA256_ASN1_SIGNING, keys::EC_PK8[0], &rng).unwrap(),
+            rsa: RsaKeyPair::from_pkcs8(keys::RSA_PK8[0]).unwrap(),
+        };
+        for s in PATH_SPELLINGS {
+            for (doc, f) in [("link", "material-path-whole"), ("link", "product-path-whole"), ("layout", "rule-pattern"), ("layout", "match-pattern"), ("layout", "rule-src-prefix"), ("layout", "rule-dst-prefix")] {
+                let meta = if doc == "link" { link_with(f, s) } else { layout_with(f, s) };
+                acc.nontrivial += 1;
+                check_signed_bytes(&mut acc, &meta, f, s, doc, &rs.ed);
+                check_reference_accepted(&mut acc, &meta, f, s, doc, &rs);
+            }
+        }
+        acc.note_n("path_spellings", PATH_SPELLINGS.len() as u64);
+    }
     // (D) documents made and signed by the Python reference implementation, through the
     // parser of the library and Metablock::verify
     check_reference_documents(&mut acc);
@@ -506,7 +537,7 @@ pub fn run(tier: Tier) -> i32 {
     crate::envprobe::judge(&mut acc, "C11:", &mut c.extra);
     c.acc = acc;
     c.rule = format!(
-        "(A) every scalar of the tier's set as the whole `name` of a link (stdout / readme on a subset); (B) every string of length <= {k} over {{\\, \", n, LF, a}} in each of {} link fields and {} layout fields, via Metablock::new and via the builder, plus reference-made Ed25519/ECDSA/RSA signatures fed to verify; (B2) the structural value families of C16 (digest shapes, negative / extreme numbers, every rule form, key tables); (B3) strings of 15..4097 (70001) characters in stdout / readme / an environment name; (D) the four Python-made, Python-signed documents through the parser of the library and Metablock::verify; before every signing the escaped canonical form of the same value is computed on the same thread (no influence allowed); (C) C0 controls and captured-output shapes in every field; key ids of all fixture keys and hash-algorithm-list variants. distinct_nontrivial = scalars + (field, string) pairs + key-id cases",
+        "(A) every scalar of the tier's set as the whole `name` of a link (stdout / readme on a subset); (B) every string of length <= {k} over {{\\, \", n, LF, a}} in each of {} link fields and {} layout fields, via Metablock::new and via the builder, plus reference-made Ed25519/ECDSA/RSA signatures fed to verify; (B2) the structural value families of C16 (digest shapes, negative / extreme numbers, every rule form, key tables); (B3) strings of 15..4097 (70001) characters in stdout / readme / an environment name; (B4) 20 not-normalised path spellings (dot segments, doubled / trailing separators, back-slashes) as a whole material path, product path, rule pattern, MATCH pattern and MATCH prefixes, with reference-made signatures; (D) the four Python-made, Python-signed documents through the parser of the library and Metablock::verify; before every signing the escaped canonical form of the same value is computed on the same thread (no influence allowed); (C) C0 controls and captured-output shapes in every field; key ids of all fixture keys and hash-algorithm-list variants. distinct_nontrivial = scalars + (field, string) pairs + key-id cases",
         LINK_FIELDS.len(),
         LAYOUT_FIELDS.len()
     );
